@@ -456,7 +456,7 @@ RegLaws<ivec, Order::none, false> const r_range_hash{{
         },
     .key = {},
     .hashes = {{"range::hash", [](ivec const &v) { return fcppt::range::hash<ivec>{}(v); }},
-               // the same sequence in another range type hashes alike when the fold is over the elements only
+               // coherence of range::hash over another range type holding the same sequence
                {"range::hash<std::list<int>>", [](ivec const &v) { return fcppt::range::hash<std::list<int>>{}(std::list<int>(v.begin(), v.end())); }}},
     .equalities = {}}};
 }
